@@ -570,7 +570,12 @@ class ImportStatement:
             else:
                 t = "%s" % (importname,)
             tokens.append(t)
-        res = s0 + pyfill(s, tokens, params=params)
+        if self.fromname is None or tokens == ["*"]:
+            # Python has no parenthesized form for 'import a, b' or for
+            # 'from m import *', so these can never be wrapped.
+            res = s0 + s + ", ".join(tokens) + "\n"
+        else:
+            res = s0 + pyfill(s, tokens, params=params)
         if params.use_black:
             return self.run_black(res, params)
         return res
